@@ -24,8 +24,8 @@ type cedge struct {
 	from, to int
 	req      string
 	dev      bool
-	// valued is "" or one of "x", "y": the type carries Scope=s and KnownAs=<valued> - two valued attributes that
-	// agree on the lower key, so that only a comparison looking at every key tells x from y
+	// valued is "" or one of "x", "y", "z": the type carries two valued attributes (Scope, KnownAs); x and y agree on
+	// the lower key, x and z on the higher one, so that only a comparison looking at every key tells them apart
 	valued string
 }
 
@@ -129,9 +129,13 @@ func (g cgraph) build(perm []int, edgeOrder []int, errRot int) *resolve.Graph {
 		if e.dev {
 			t = dep.NewType(dep.Dev)
 		}
-		if e.valued != "" {
+		switch e.valued {
+		case "x", "y":
 			t.AddAttr(dep.Scope, "s")
 			t.AddAttr(dep.KnownAs, e.valued)
+		case "z": // differs from x in the first valued attribute only
+			t.AddAttr(dep.Scope, "t")
+			t.AddAttr(dep.KnownAs, "x")
 		}
 		rg.AddEdge(resolve.NodeID(perm[e.from]), resolve.NodeID(perm[e.to]), e.req, t)
 	}
@@ -388,7 +392,7 @@ func c13Decorate(g cgraph, left, fromSlot int, f func(g cgraph)) {
 	// slots: for each original edge 6 slots (dev, req b, parallel with other type, parallel with other req,
 	// parallel with both other, a pair of parallel edges whose types differ only in the value of their second
 	// valued attribute), for each node 2 slots (1 error, 2 errors)
-	const es = 6
+	const es = 7
 	total := ne*es + nn*2
 	for s := fromSlot; s < total; s++ {
 		h := cgraph{labels: g.labels, errs: append([][]string(nil), g.errs...), edges: append([]cedge(nil), g.edges...)}
@@ -422,6 +426,11 @@ func c13Decorate(g cgraph, left, fromSlot int, f func(g cgraph)) {
 				h.edges[e].valued = "x"
 				p := h.edges[e]
 				p.valued = "y"
+				h.edges = append(h.edges, p)
+			case 6:
+				h.edges[e].valued = "x"
+				p := h.edges[e]
+				p.valued = "z"
 				h.edges = append(h.edges, p)
 			}
 		} else {
